@@ -255,6 +255,16 @@ func H_C04_typing() {
 		{"u >= f", reflect.Bool, func(v reflect.Value) bool { return v.Bool() == (float64(u) >= f) }},
 		{"a < 3", reflect.Bool, func(v reflect.Value) bool { return v.Bool() == (float64(a) < 3) }},
 		{"a <= b", reflect.Bool, func(v reflect.Value) bool { return v.Bool() == (a <= b) }},
+		// any floating-point operand - float32 included, on either side - makes it floating point
+		{"a * f32", reflect.Float64, func(v reflect.Value) bool { return c04EqF(v.Float(), float64(a)*1.5) }},
+		{"a / f32", reflect.Float64, func(v reflect.Value) bool { return c04EqF(v.Float(), float64(a)/1.5) }},
+		{"u * f32", reflect.Float64, func(v reflect.Value) bool { return c04EqF(v.Float(), float64(u)*1.5) }},
+		{"f32 * a", reflect.Float64, func(v reflect.Value) bool { return c04EqF(v.Float(), 1.5*float64(a)) }},
+		{"a + f32", reflect.Float64, func(v reflect.Value) bool { return c04EqF(v.Float(), float64(a)+1.5) }},
+		{"a - f32", reflect.Float64, func(v reflect.Value) bool { return c04EqF(v.Float(), float64(a)-1.5) }},
+		{"a < f32", reflect.Bool, func(v reflect.Value) bool { return v.Bool() == (float64(a) < 1.5) }},
+		{"i8 * a", reflect.Int64, func(v reflect.Value) bool { return v.Int() == 3*a }},
+		{"a * u8", reflect.Int64, func(v reflect.Value) bool { return v.Int() == a*5 }},
 		{`"s" + "t"`, reflect.String, func(v reflect.Value) bool { return v.String() == "st" }},
 		{`str + "t"`, reflect.String, func(v reflect.Value) bool { return v.String() == "xyt" }},
 		{`str + 7`, reflect.String, func(v reflect.Value) bool { return v.String() == "xy7" }},
@@ -269,6 +279,9 @@ func H_C04_typing() {
 	vars.Set("f", f)
 	vars.Set("u", u)
 	vars.Set("str", "xy")
+	vars.Set("f32", float32(1.5))
+	vars.Set("i8", int8(3))
+	vars.Set("u8", uint8(5))
 	vars.SetFunc("cap", c04Capture(&got))
 	_, err := hxExec(set, "/m.jet", vars, nil)
 	vfReach("evaluated")
@@ -363,6 +376,75 @@ func H_C04_signLexing() {
 	if tight.Kind() == reflect.Float64 && spaced.Kind() == reflect.Float64 {
 		vfAssert(c04EqF(tight.Float(), spaced.Float()), "an operator written without spaces means the same as with spaces")
 	}
+}
+
+// H_C04_unarySign: a unary - or + written directly before each kind of operand (variable,
+// context field, chain, call, index, parenthesis, number) at the start of an action, after
+// '(' , after an operator and after a comma: the value is the negated / unchanged operand
+// (unary minus binds tightest), for all values.
+//
+//gosym:reach evaluated
+func H_C04_unarySign() {
+	operands := []string{"a", ".F", "d.F", "id(a)", "s[0]", "(a)", ".G"}
+	places := []string{"SIGNX", "(SIGNX)", "3 * SIGNX", "b - SIGNX", "id2(b, SIGNX)", "SIGNX * b"}
+	o := ndChoice("operand", len(operands))
+	pl := ndChoice("place", len(places))
+	neg := ndBool("minus")
+	a, b := ndInt64("a"), ndInt64("b")
+	type dt struct{ F, G int64 }
+	sign := "+"
+	x := a
+	if neg {
+		sign, x = "-", -a
+	}
+	src := ""
+	for i := 0; i < len(places[pl]); i++ {
+		switch {
+		case i+5 <= len(places[pl]) && places[pl][i:i+5] == "SIGNX":
+			src += sign + operands[o]
+			i += 4
+		default:
+			src += string(places[pl][i])
+		}
+	}
+	var want int64
+	switch pl {
+	case 0, 1:
+		want = x
+	case 2:
+		want = 3 * x
+	case 3:
+		want = b - x
+	case 4:
+		want = b*1000 + x
+	default:
+		want = x * b
+	}
+	var got reflect.Value
+	set := hxSet(nil, "/m.jet", `{{ cap(`+src+`) }}`)
+	vars := make(VarMap)
+	vars.Set("a", a)
+	vars.Set("b", b)
+	vars.Set("s", []int64{a})
+	vars.Set("d", dt{F: a})
+	vars.Set("id", func(x int64) int64 { return x })
+	vars.Set("id2", func(x, y int64) int64 { return x*1000 + y })
+	vars.SetFunc("cap", c04Capture(&got))
+	_, err := hxExec(set, "/m.jet", vars, dt{F: a, G: a})
+	vfReach("evaluated")
+	vfNote(src)
+	vfAssert(err == nil, "the expression parses and evaluates")
+	if err != nil {
+		return
+	}
+	if pl == 2 && got.IsValid() && got.Kind() == reflect.Float64 {
+		// 3 is a literal: floating point
+		vfAssert(c04EqF(got.Float(), 3*float64(x)), "value (float arm)")
+		return
+	}
+	gi, ok := c04Int(got)
+	vfAssert(ok, "integers combine integrally")
+	vfAssert(gi == want, "the unary sign applies to the operand directly after it")
 }
 
 // ---- generated expression trees (thorough tier) ----
